@@ -17,11 +17,11 @@ HARNESSES = [
     dict(name="radius", pkg="./plugins/auth/radius/", test="TestVerifC03Radius", timeout=300,
          files=[("plugins/auth/radius/zz_verif_c03_radius_test.go", "harness/C03/zz_verif_c03_radius_test.go")]),
 ]
-# every C03 finding is fixed in /repo (KNOWN_FINDINGS.txt, last: 277708f): the only variant is what /repo HEAD does; a
-# regression to any fixed defect is a VIOLATION.  (The driver still accepts "defective" / "noteardown" / "heldanswer" /
-# "sbfailtwice" / "unnamedlease" = the code before e9950ea / 0709f1b / 7b3d79c / 277708f, used only when a patch is validated
-# on a scratch tree.)
-VARIANTS = ["repaired"]
+# first variant = the repaired code; "relayunapproved" = /repo HEAD with the one open (known:) finding
+# ipoe-relay-reply-to-unapproved-session (only ipoer cases differ).  Every other C03 finding is fixed in /repo (last:
+# 277708f): a regression to one of them is a VIOLATION.  (The driver still accepts "defective" / "noteardown" / "heldanswer" /
+# "sbfailtwice" / "unnamedlease" = the code before e9950ea / 0709f1b / 7b3d79c / 277708f, for scratch-tree validation.)
+VARIANTS = ["repaired", "relayunapproved"]
 MODEL_NEEDS_IMPL = True   # only for the FSM table flavour reported by the harness (see notes/C03.md)
 RULE = ("pppoe: (a) systematic: each of 16 prefixes reaching a distinct phase/FSM situation (fresh, LCP open, auth pending, "
         "network, open, renegotiated, renegotiated+pending, re-authenticating, rejected, terminated, static address, "
@@ -56,7 +56,8 @@ ASSUMPTIONS = ["ipoe: unified session mode, DHCP server mode",
 
 
 def route(case):
-    return case.split(" ", 1)[0]
+    k = case.split(" ", 1)[0]
+    return "ipoe" if k == "ipoer" else k
 
 
 # ------------------------------------------------------------------ pppoe
@@ -458,8 +459,51 @@ def gen_radius():
     return tbl + tbl[::-1]
 
 
+KINDS_I = ["c"] + ["m%d" % k for k in range(6)]
+KINDS_P = ["c", "s"] + ["m%d" % k for k in range(6)]
+
+
+def gen_identity():
+    """Another subscriber whose identity differs from the slot's in exactly ONE key component (C-VLAN, S-VLAN, each MAC
+    byte).  IPoE `A:<i>:<kind>:<d|r|s|q>`: its DISCOVER / REQUEST / SOLICIT / REQUEST6 while the slot's session is pending,
+    approved, created, bound or rejected must get a pending session and an AAA request of its own, never an answer.
+    PPPoE `g:<i>:<kind>:<proto>:<frame>` / `y:<i>:<kind>`: a frame / PADT carrying the slot's PPPoE session id from that other
+    identity changes nothing, in every phase."""
+    cases = []
+    ip = ipoe_prefixes()
+    for name in ("pending_d", "approved", "created", "bound4", "bound46", "rejected", "released"):
+        for k in KINDS_I:
+            for msg in ("d", "r", "s", "q"):
+                cases.append("ipoe 2 16 " + " ".join(ip[name] + ["A:0:%s:%s" % (k, msg), "A:0:%s:%s" % (k, "r" if msg in "sq" else "s"),
+                                                                "D:0", "R:0", "S:0"]))
+    pf = prefixes()
+    frames = [("lcp", "treq"), ("lcp", "creq_ok"), ("ipcp", "creq_ok"), ("ip6cp", "creq_ok"), ("chap", "resp"), ("ip6", "dh_req"), ("lcp", "echoreq")]
+    for name in ("lcpup", "pending", "network", "open"):
+        for k in KINDS_P:
+            for proto, kind in frames:
+                cases.append("pppoe 2 " + " ".join(pf[name] + ["g:0:%s:%s:%s" % (k, proto, kind), fr(0, "ipcp", "creq_ok"), fr(0, "ip6", "rs")]))
+            cases.append("pppoe 2 " + " ".join(pf[name] + ["y:0:%s" % k, fr(0, "ipcp", "creq_ok"), fr(0, "lcp", "echoreq"), "x:0"]))
+    return cases
+
+
+def gen_ipoer():
+    """ipoer: the access group's DHCPv4 profile is in relay mode; Y:<i>:offer|ack|nak is a DHCP server's message arriving
+    with the session's transaction id.  Pending (never answered), rejected, failed, approved, approved-and-created
+    sessions x every server message x follow-ups; the other subscriber's pending session while one is approved."""
+    sits = {"pending": ["D:0"], "pending_r": ["R:0"], "rejected": ["D:0", "a:0:cur:rej"], "failed": ["D:0", "a:0:cur:err"],
+            "approved": ["D:0", "a:0:cur:acc"], "created": ["D:0", "a:0:cur:acc", "v:ok"],
+            "other_pending": ["D:0", "a:0:cur:acc", "v:ok", "D:1"]}
+    cases = []
+    for name, p in sits.items():
+        for y in ("offer", "ack", "nak"):
+            for who in ((0, 1) if name == "other_pending" else (0,)):
+                for tail in ([], ["a:%d:cur:acc" % who, "v:ok"], ["a:%d:cur:rej" % who, "Y:%d:ack" % who]):
+                    cases.append("ipoer 2 16 " + " ".join(p + ["Y:%d:%s" % (who, y)] + tail))
+    return cases
+
+
 def gen_cases(rng, tier, budget):
-    return gen_pppoe(rng, tier, budget) + gen_ipoe(rng, tier, budget) + gen_ipoec() + gen_radius()
+    return gen_pppoe(rng, tier, budget) + gen_ipoe(rng, tier, budget) + gen_ipoec() + gen_ipoer() + gen_identity() + gen_radius()
 
 
 # ------------------------------------------------------------------ verdict helpers
@@ -474,14 +518,14 @@ def nontrivial(case, out):
         return True
     if t[0] == "pppoe":
         return any(e.startswith("a:") for e in t[2:]) and ("I2" in out or "V2" in out or "|lA" in out)
-    if t[0] in ("ipoe", "ipoec"):
+    if t[0] in ("ipoe", "ipoec", "ipoer"):
         return any("a:" in e for e in t[3:]) and ("OFFER" in out or "ACK" in out or "ADV" in out or "f1" in out)
     return True
 
 
 def events(case):
     t = case.split()
-    return t[3:] if t[0] in ("ipoe", "ipoec") else t[2:]
+    return t[3:] if t[0] in ("ipoe", "ipoec", "ipoer") else t[2:]
 
 
 def first_div(a, b):
@@ -516,6 +560,8 @@ def classify(case, impl, model):
 def signature(case, impl, models):
     t = case.split()
     rep, dfc = models["repaired"], models.get("defective", models["repaired"])
+    if t[0] == "ipoer":
+        return "ipoe-relay-reply-to-unapproved-session" if impl == models.get("relayunapproved") else "ipoe-unexplained"
     if t[0] == "pppoe" and impl == models.get("unnamedlease"):
         return "pppoe-dhcpv6-rereserve-drops-pool-name"
     if t[0] == "pppoe" and impl == models.get("sbfailtwice"):
@@ -564,7 +610,7 @@ def shrink(case):
     t = case.split()
     if t[0] == "radius":
         return
-    nh = 3 if t[0] in ("ipoe", "ipoec") else 2
+    nh = 3 if t[0] in ("ipoe", "ipoec", "ipoer") else 2
     head, ev = t[:nh], t[nh:]
     for i in range(len(ev)):
         yield " ".join(head + ev[:i] + ev[i + 1:])
